@@ -43,7 +43,7 @@ GETS = ("welcome", "code", "key", "verifier", "versions", "message")
 def configs(tier):
     out = []
     for i in range(8):
-        out.append({"spake": "real" if i == 0 else "stub",
+        out.append({"spake": "real" if i == 0 else "stub", "reentrant": i % 3 == 1,
                     "ordered": i % 2 == 0,
                     "reorder_heavy": i % 2 == 1,
                     "uplink_loss": i in (2, 4, 5),
